@@ -1253,6 +1253,7 @@ impl Scenario for RxSim {
                     // re-establish it (open contexts, remembered label, free list) whenever an input disturbed it
                     let state_pkts: Vec<Vec<u8>> = prog_ops.iter().take_while(|o| o.name != "sweep").filter(|o| o.name == "feed").map(|o| o.get_h("hex").to_vec()).collect();
                     let ids0 = w.rx.led.borrow().attached_ids();
+                    let mut restore_budget: usize = 150_000;
                     // kind 4: headers a, a+stride, ... (n of them), each with *every* truncation of the announced packet
                     // (0 bytes .. one byte more than announced) on tail pattern t
                     let stride = op.get_u("stride").max(1);
@@ -1279,8 +1280,10 @@ impl Scenario for RxSim {
                         // receiver (anything but an unknown frag id leaves a trace), feed the state packets again
                         let nn = w.rx.app.len();
                         w.rx.give_back(nn);
-                        if !state_pkts.is_empty() && (w.last_class_changed_state || w.rx.led.borrow().attached_ids() != ids0) {
+                        if !state_pkts.is_empty() && restore_budget >= state_pkts.len() && (w.last_class_changed_state || w.rx.led.borrow().attached_ids() != ids0) {
                             st.inc("sweep_state_restored");
+                            // (bounded: a state of 256 open contexts is not rebuilt after each of 16 000 inputs)
+                            restore_budget -= state_pkts.len();
                             for sp in &state_pkts {
                                 st.inc("lib_calls");
                                 if let RxRes::Ok(DecapStatus::CompletedPkt(b, _), _) = w.rx.decap(sp) {
